@@ -191,6 +191,15 @@ def check_loader(c, rec):
             if not np.array_equal(yb, y[lo:hi]) or not np.array_equal(Xb, X[lo:hi]):
                 raise Violation("loader_alignment", f"pass {pass_no} batch {j} is not samples [{lo},{hi}) of both arrays "
                                                     f"(labels {yb[:4].tolist()}); {ctx}")
+        if pass_no == 2 and t in ("none", "none_default") and want_len:
+            # loader[j] is the j-th batch as well
+            for j in (0, want_len - 1):
+                try:
+                    Xj, yj = dl[j]
+                except Exception as e:  # noqa: BLE001
+                    raise Violation("loader_getitem", f"loader[{j}] raised {type(e).__name__}: {e}; {ctx}")
+                if not np.array_equal(np.asarray(yj), y[j * b:(j + 1) * b]) or not np.array_equal(np.asarray(Xj), X[j * b:(j + 1) * b]):
+                    raise Violation("loader_getitem", f"loader[{j}] is not batch {j}; {ctx}")
         if t in ("record", "new_objects"):
             if len(calls) != want_len:
                 raise Violation("loader_transform", f"transform called {len(calls)} times for {want_len} batches; {ctx}")
